@@ -89,6 +89,40 @@ def gen_project(rng):
   return wl
 
 
+def crawl_import_graph(wl, scratch):
+  """The import graph as pytype's analyze_project main computes it: the REAL
+  importlab crawl (ImportGraph.create with trim=True, importlab's resolver and
+  import finder) over the project's files written to a scratch directory.
+  Returns (graph, conf)."""
+  import importlab.graph
+  from pytype.imports import typeshed as typeshed_mod
+  from pytype.tools.analyze_project import environment as ap_env
+  by_id = {m["id"]: m for m in wl["modules"]}
+  pkg_dirs = set()
+  for k, src in wl["bodies"].items():
+    mod = by_id[int(k)]
+    if mod["kind"] in ("System", "Builtin"):
+      continue
+    path = mod["path"]
+    os.makedirs(os.path.dirname(path), exist_ok=True)
+    with open(path, "w") as f:
+      f.write(src)
+    d = os.path.dirname(path)
+    while d.startswith(wl["root"]) and d != wl["root"]:
+      pkg_dirs.add(d)
+      d = os.path.dirname(d)
+  for d in sorted(pkg_dirs):
+    init = os.path.join(d, "__init__.py")
+    if not os.path.exists(init):
+      with open(init, "w") as f:
+        f.write("")
+  conf = simbuild.make_conf(wl)
+  conf.pythonpath = [wl["root"]]
+  env = ap_env.create_importlab_environment(conf, typeshed_mod.Typeshed())
+  graph = importlab.graph.ImportGraph.create(env, sorted(conf.inputs), trim=True)
+  return graph, conf
+
+
 def run_real_step(fs, step, planned):
   """Executes one step body for real. Returns dict(pyi, errors, access, crash)."""
   m = anacore.mods()
@@ -256,20 +290,43 @@ def evaluate(trace):
   log = kernel.EventLog(keep=False)
   stats = {"real_steps": 0, "builds": 0, "accesses": 0, "overlaps": 0,
            "edges": 0, "skipped": 0, "first_pass_import_errors": 0,
-           "kills": 0, "torn_left": 0}
+           "kills": 0, "torn_left": 0, "crawled": 0}
   fs = anacore.new_fs()
   fs.logging = False
   by_id = {m["id"]: m for m in wl["modules"]}
   for k, src in wl["bodies"].items():
     fs.put(by_id[int(k)]["path"], src)
   out = {"violation": None, "stats": stats, "nontrivial": 0, "sigs": set()}
+  scratch = None
   try:
-    planned = simbuild.run_planner(wl, fs)
+    graph = conf = None
+    if trace.get("crawl"):
+      import shutil
+      import tempfile
+      anacore.mods()
+      scratch = tempfile.mkdtemp(prefix="verif-crawl-", dir="/tmp")
+      wl = _reroot(wl, scratch)
+      by_id = {m["id"]: m for m in wl["modules"]}
+      for k, src in wl["bodies"].items():
+        fs.put(by_id[int(k)]["path"], src)
+      graph, conf = crawl_import_graph(wl, scratch)
+      # everything the crawl found (package __init__ files it created, typeshed
+      # stubs) must be visible to the planner's and the steps' file system
+      for p in sorted(graph.provenance):
+        if p.startswith(scratch) and not fs.has(p) and os.path.exists(p):
+          with open(p) as f:
+            fs.put(p, f.read())
+      stats["crawled"] = 1
+    planned = simbuild.run_planner(wl, fs, graph=graph, conf=conf)
     plan, steps = simbuild.read_plan(planned)
   except (ninja_model.PlanRejected, simbuild.StepUnparseable) as ex:
     out["violation"] = {"class": "I1", "oracle": "plan_accepted", "what": str(ex)}
     out["digest"] = log.digest()
     return out
+  finally:
+    if scratch:
+      import shutil
+      shutil.rmtree(scratch, ignore_errors=True)
   stats["edges"] = len(steps)
   if not steps:
     stats["skipped"] = 1
@@ -306,6 +363,19 @@ def evaluate(trace):
   return out
 
 
+def _reroot(wl, scratch):
+  import json
+  def rr(p):
+    return os.path.join(scratch, p.lstrip("/"))
+  wl = json.loads(json.dumps(wl))
+  wl["root"] = rr(wl["root"])
+  wl["out"] = rr(wl["out"])
+  for mod in wl["modules"]:
+    if mod["kind"] not in ("System", "Builtin"):
+      mod["path"] = rr(mod["path"])
+  return wl
+
+
 def generate(rng):
   wl = gen_project(rng)
   scheds = []
@@ -316,7 +386,18 @@ def generate(rng):
     if rng.random() < 0.4:
       sc["kill_at"] = rng.randrange(1, 6)
     scheds.append(sc)
-  return {"workload": wl, "schedules": scheds}
+  tr = {"workload": wl, "schedules": scheds}
+  if rng.random() < 0.35:
+    # import graph from the real importlab crawl over files in a scratch dir.
+    # Everything the bodies import must then really exist on the python path,
+    # so the workload's "system" modules become ordinary project modules
+    # (the typeshed modules os/sys/math/string are the system ones here).
+    tr["crawl"] = True
+    for mod in wl["modules"]:
+      if mod["kind"] in ("System", "Builtin"):
+        mod["kind"] = "Local"
+        mod["path"] = mod["path"].replace("/usr/lib/python3/site-packages", wl["root"], 1)
+  return tr
 
 
 def vkey(v):
@@ -399,7 +480,7 @@ def plan(mode, tier):
 def new_agg(mode):
   return {"runs": 0, "real_steps": 0, "builds": 0, "accesses": 0, "overlaps": 0,
           "edges": 0, "skipped": 0, "nontrivial": 0, "sigs": set(),
-          "first_pass_import_errors": 0, "kills": 0, "torn_left": 0,
+          "first_pass_import_errors": 0, "kills": 0, "torn_left": 0, "crawled": 0,
           "violations": [], "samples": [], "digests": [], "timeouts": 0}
 
 
@@ -430,7 +511,7 @@ def run_chunk(args):
     agg["digests"].append(res["digest"])
     st = res["stats"]
     for k in ("real_steps", "builds", "accesses", "overlaps", "edges", "skipped",
-              "first_pass_import_errors", "kills", "torn_left"):
+              "first_pass_import_errors", "kills", "torn_left", "crawled"):
       agg[k] += st[k]
     agg["nontrivial"] += res["nontrivial"]
     agg["sigs"].update(res["sigs"])
@@ -452,7 +533,7 @@ def run_chunk(args):
 def merge_agg(dst, src):
   for k in ("runs", "real_steps", "builds", "accesses", "overlaps", "edges",
             "skipped", "nontrivial", "timeouts", "first_pass_import_errors",
-            "kills", "torn_left"):
+            "kills", "torn_left", "crawled"):
     dst[k] += src[k]
   dst["sigs"] |= src["sigs"]
   dst["violations"].extend(src["violations"])
@@ -479,6 +560,7 @@ def coverage(agg, mode, tier):
       "file_accesses_checked_against_read_set": agg["accesses"],
       "plan_edges_total": agg["edges"],
       "projects_without_steps": agg["skipped"],
+      "projects_whose_import_graph_came_from_the_real_importlab_crawl": agg["crawled"],
       "first_pass_steps_with_expected_import_errors": agg["first_pass_import_errors"],
       "faults_fired": {"ninja_sigkill_then_restart": agg["kills"],
                        "torn_or_empty_stubs_left_behind": agg["torn_left"]},
